@@ -93,7 +93,7 @@ stats! {
     f_layout_runs, f_noise_alloc, f_dtor_panic, f_dtor_script, f_script_action, f_nested_collection, f_elided_unadopt,
     f_unmatched_unadopt, f_partial_recording, f_same_handle_self_adopt, f_weak_inside_value, f_weak_upgrade_in_dtor,
     f_weak_upgrade_dying_peer_none, f_consuming_on_adopted, f_dead_handle_drop_in_dtor, f_dead_handle_clone_in_dtor,
-    f_small_stack, f_self_adopt_clone, f_script_combos, f_log_trace_runs, f_clone_panic, f_dtor_panic_early,
+    f_small_stack, f_self_adopt_clone, f_script_combos, f_log_trace_runs, f_clone_panic, f_dtor_panic_early, f_addr_reuse_runs,
     // probes
     p_path_plain, p_path_zero_links, p_path_cycle, p_cycle_members, p_cycle_survivors, p_trace_calls, p_trace_pops,
     p_trace_visits, p_trace_scanned, p_stale_access, p_group_collected, p_group_ge3, p_outside_survived_collection,
@@ -104,7 +104,7 @@ stats! {
     p_script_legal_actions, p_unequal_inout_group, p_parallel_edges, p_self_loop_clone, p_dtor_weak_obs,
     p_known_finding, p_other_violation, p_child_restarts, p_pages_used_max, p_release_frames,
     p_c12_after_consume_ops, p_c13_elided_then_collect, p_tail_group, p_raw_ghosts,
-    p_order_pairs, p_layout_skipped_not_fully_recorded, p_typed_programs, p_c15_visit_checks, p_nested_obligation_checks, p_c06_nested_count_checks, f_downgrade_dead_peer_in_dtor, f_downgrade_live_in_dtor,
+    p_order_pairs, p_blocks_reused, p_layout_skipped_not_fully_recorded, p_typed_programs, p_c15_visit_checks, p_nested_obligation_checks, p_c06_nested_count_checks, f_downgrade_dead_peer_in_dtor, f_downgrade_live_in_dtor,
     c16_scenarios, c16_clone_aborted_dead, c16_clone_aborted_doomed, c16_clone_live_ok, c16_clone_unreachable_either, c16_drop_ok, c16_noop,
 }
 
